@@ -32,13 +32,18 @@ LegalBucket(i, S) == /\ fitrows[i] = {} /\ Own(i) \subseteq S
                         /\ \A r \in extra : r \in Rows /\ cls[r] \in Missing(i)
                         /\ \A k \in Missing(i) : Cardinality({r \in extra : cls[r] = k}) = 1
                         /\ (~T.isclf => extra = {})
+\* Which local model is stored where (the position in estimators_, a separate mean_estimator_) is the implementation's
+\* business: a recorded fit is attributed by WHAT it was trained on.  The harness proposes the attribution (a matching of
+\* the recorded fits to the buckets and the fallback, found on the row sets alone; -2 when there is none) and the
+\* specification checks it: the rows of that not yet fitted bucket plus, for a classifier, exactly one borrowed example
+\* per missing class - or all rows for the fallback model.
 TFit == /\ Is("fit") /\ phase = "buckets"
         /\ Require(Aligned, T.id, "RowsTargetsWeightsTogether", l, [rows |-> Ev.rows, ys |-> Ev.ys, ws |-> Ev.ws])
         /\ LET S == ToSet(Ev.rows) IN
-           IF Ev.bucket = -1                                   \* the stub object is mean_estimator_
+           IF Ev.bucket = -1
            THEN /\ Require(S = Rows /\ meanrows = {}, T.id, "FallbackOnAllRows", l, [rows |-> Ev.rows])
                 /\ meanrows' = S /\ UNCHANGED fitrows
-           ELSE IF Ev.bucket \in DOMAIN fitrows /\ LegalBucket(Ev.bucket, S)      \* the stub object is estimators_[bucket]
+           ELSE IF Ev.bucket \in DOMAIN fitrows /\ LegalBucket(Ev.bucket, S)
                 THEN fitrows' = [fitrows EXCEPT ![Ev.bucket] = S] /\ UNCHANGED meanrows
                 ELSE /\ Failed(T.id, "ExactRows", l, [bucket |-> Ev.bucket, rows |-> Ev.rows,
                                                       own |-> IF Ev.bucket \in DOMAIN fitrows THEN Own(Ev.bucket) ELSE {},
@@ -48,9 +53,6 @@ TFit == /\ Is("fit") /\ phase = "buckets"
 TFitted == /\ Is("fitted") /\ phase = "buckets"
            /\ Require(\A i \in DOMAIN fitrows : fitrows[i] # {}, T.id, "OneModelPerNonEmptyBucket", l, [unfitted |-> {i \in DOMAIN fitrows : fitrows[i] = {}}])
            /\ Require(meanrows = Rows, T.id, "FallbackOnAllRows", l, <<>>)
-           /\ Require(Len(Ev.estimators) = Cardinality(Seen), T.id, "OneModelPerNonEmptyBucket", l, [got |-> Len(Ev.estimators), want |-> Cardinality(Seen)])
-           /\ Require(\A i \in DOMAIN fitrows : i + 1 \in DOMAIN Ev.estimators /\ ToSet(Ev.estimators[i + 1]) = fitrows[i],
-                      T.id, "EstimatorsInBucketOrder", l, [got |-> Ev.estimators, want |-> fitrows])
            /\ phase' = "fitted" /\ UNCHANGED <<cell, cls, mapping, fitrows, meanrows>> /\ Go
 \* what the recording model that must answer produces for this probe
 Expected == LET S == Answers(Ev.cell) IN
